@@ -145,7 +145,11 @@ impl<'a> ArxmlLexer<'a> {
             let mut standalone: Option<bool> = None;
             for attr_text in splitter {
                 let (attr_name, attr_val) = if let Some(pos) = attr_text.iter().position(|c| *c == b'=') {
-                    (&attr_text[0..pos], &attr_text[pos + 2..attr_text.len() - 1])
+                    // the value is enclosed in quotes; a truncated value (e.g. 'version=' or 'version="') is treated as empty
+                    (
+                        &attr_text[0..pos],
+                        attr_text.get(pos + 2..attr_text.len() - 1).unwrap_or(&attr_text[0..0]),
+                    )
                 } else {
                     (attr_text, &attr_text[0..0])
                 };
